@@ -135,6 +135,23 @@ Proof.
   rewrite M, D, Sc in H. simpl in H. apply existsb_exists in H. exact H.
 Qed.
 
+(* the shape assumption does not read the emitted events *)
+Lemma in_scope_l_ext s s' scope pred l :
+  (forall h, ename_of s' h = ename_of s h) -> in_scope_l s' scope pred l = in_scope_l s scope pred l.
+Proof.
+  intro E. induction l as [|n r IH]; simpl; [reflexivity|]. rewrite E, IH. reflexivity.
+Qed.
+Lemma hshape_b_set_out v s : hshape_b (set_out v s) = hshape_b s.
+Proof.
+  unfold hshape_b, in_scope.
+  change (mode (set_out v s)) with (mode s). change (open_elems (set_out v s)) with (open_elems s).
+  change (dev_on (set_out v s) 11) with (dev_on s 11). change (ename_of (set_out v s)) with (ename_of s).
+  change (scope_for (set_out v s)) with (scope_for s).
+  rewrite (in_scope_l_ext s (set_out v s)); [reflexivity | intro h; reflexivity].
+Qed.
+Lemma Hshape_set_out v s : Hshape s -> Hshape (set_out v s).
+Proof. unfold Hshape. rewrite hshape_b_set_out. exact (fun H => H). Qed.
+
 (* ---------- BeforeHead ---------- *)
 Lemma before_head_facts :
   forallb (lands heads_in_body [3]) (nth 3 heads_before_head []) = true /\
@@ -517,4 +534,710 @@ Proof.
         - intros x s0 _ K0. rewrite wp_bind.
           eapply (wp_append_text s2); [exact K0 | eapply keeps_late; eassumption |]. intros s' K' _. rewrite wp_ret. exact K'. }
       intros _u s3 K3. apply Tail. exact K3.
+Qed.
+
+(* ---------- "clear the stack back to a ... context" ---------- *)
+Lemma wp_pop_until_current_eq s0 s set (Q : unit -> st -> Prop) :
+  keeps s0 s -> late s -> in_set set html_html = true ->
+  (forall s' rest, keeps s0 s' -> shrunk s s' ->
+      drop_until_in s (in_set set) (rev (open_elems s)) = Some rest -> open_elems s' = rev rest -> Q tt s') ->
+  wp (pop_until_current set) Q s.
+Proof.
+  intros K L Hs H. pose proof K as [I S].
+  unfold pop_until_current. rewrite wp_bind, wp_get.
+  destruct (TInv_stack_nonempty _ I L) as (r & tl & Er & Nr).
+  destruct (drop_until_in_some s (in_set set) (rev (open_elems s))) as [rest E].
+  { exists r. split; [rewrite Er, rev_root; apply in_or_app; right; left; reflexivity | rewrite Nr; exact Hs]. }
+  rewrite E. destruct (drop_until_in_suffix _ _ _ _ E) as [[pre A] (e & r' & B & Se)].
+  pose proof (rev_suffix_prefix _ _ _ A) as P.
+  rewrite wp_modify. apply (H _ rest); [| | exact E | reflexivity].
+  - rewrite P. apply keeps_shrink; [exact K | exact L | subst rest; simpl; lia].
+  - exists (length rest). simpl. repeat split; [subst rest; simpl; lia | | exact P].
+    apply (f_equal (@length _)) in A. rewrite rev_length, app_length in A. lia.
+Qed.
+
+(* (A) some element other than the root is in the context set: the walk stops above the root *)
+Lemma wp_pop_until_current_above_root s0 s set (Q : unit -> st -> Prop) :
+  keeps s0 s -> late s -> in_set set html_html = true ->
+  (exists x, In x (open_elems s) /\ in_set set (ename_of s x) = true /\ ename_of s x <> html_html) ->
+  (forall s', keeps s0 s' -> shrunk s s' -> 2 <= length (open_elems s') -> Q tt s') ->
+  wp (pop_until_current set) Q s.
+Proof.
+  intros K L Hs (x & Hin & Hx & Nx) H. pose proof K as [I _].
+  destruct (TInv_stack_nonempty _ I L) as (r & tl & Er & Nr).
+  eapply wp_pop_until_current_eq; [exact K | exact L | exact Hs |].
+  intros s' rest K' Sh D E'. apply H; [exact K' | exact Sh |].
+  rewrite Er in D. destruct (drop_until_in_not_root s (in_set set) r tl rest D) as (e & rest' & -> & Ne & _).
+  { exists x. split; [|exact Hx]. rewrite Er in Hin. destruct Hin as [<-|Hin]; [contradiction | exact Hin]. }
+  rewrite E'. simpl. rewrite app_length, rev_length. simpl. destruct rest'; [contradiction | simpl; lia].
+Qed.
+
+(* (B) the walk of has_in_table_scope and the walk of pop_until_current stop at the same element *)
+Lemma scope_stop s (scope : ename -> bool) (pred : handle -> bool) (ctx : ename -> bool) :
+  (forall e, pred e = true -> ctx (ename_of s e) = true) ->
+  (forall e, ctx (ename_of s e) = true -> scope (ename_of s e) = true \/ pred e = true) ->
+  forall l, in_scope_l s scope pred l = true -> exists e r', drop_until_in s ctx l = Some (e :: r') /\ pred e = true.
+Proof.
+  intros H1 H2. induction l as [|n r IH]; intro S; simpl in S; [discriminate|]. simpl.
+  destruct (pred n) eqn:Pn.
+  - rewrite (H1 _ Pn). exists n, r. split; [reflexivity | exact Pn].
+  - destruct (scope (ename_of s n)) eqn:Sn; [discriminate|].
+    destruct (ctx (ename_of s n)) eqn:Cn; [|apply IH; exact S].
+    destruct (H2 _ Cn) as [X|X]; congruence.
+Qed.
+
+Lemma in_set_cases set (P : ename -> Prop) : Forall P set -> forall n, in_set set n = true -> P n.
+Proof.
+  intros F n H. unfold in_set in H. apply existsb_exists in H. destruct H as (a & Hin & E).
+  apply ename_eqb_eq in E. subst a. rewrite Forall_forall in F. apply F. exact Hin.
+Qed.
+
+Lemma scope_for_table s : scope_for s table_scope = table_scope.
+Proof.
+  unfold scope_for. replace (in_set table_scope (ns_mathml, nm "mi")) with false by reflexivity.
+  rewrite andb_false_r. reflexivity.
+Qed.
+
+Lemma row_context_cases n : in_set table_row_context n = true ->
+  in_set table_scope n = true \/ ename_eqb n (ns_html, nm "tr") = true.
+Proof.
+  apply (in_set_cases table_row_context (fun n => in_set table_scope n = true \/ ename_eqb n (ns_html, nm "tr") = true)).
+  unfold table_row_context. repeat (apply Forall_cons; [first [left; reflexivity | right; reflexivity]|]). apply Forall_nil.
+Qed.
+
+Lemma tr_not_html : (ns_html, nm "tr") <> html_html. Proof. discriminate. Qed.
+
+Lemma wp_close_row s (Q : unit -> st -> Prop) :
+  TInv s -> late s -> in_scope_named s table_scope (nm "tr") = true ->
+  (forall s', keeps s s' -> shrunk s s' -> Q tt s') -> wp close_row Q s.
+Proof.
+  intros I L Sc H. unfold close_row. rewrite wp_bind.
+  eapply (wp_pop_until_current_eq s s); [apply keeps_refl; exact I | exact L | reflexivity |].
+  intros s1 rest K1 Sh1 D E1.
+  unfold in_scope_named, in_scope in Sc. rewrite scope_for_table in Sc.
+  destruct (scope_stop s (in_set table_scope) (fun h => html_elem_named_b s h (nm "tr")) (in_set table_row_context)) with (l := rev (open_elems s))
+    as (e & r' & D' & Pe).
+  { intros e Pe. apply ename_eqb_eq in Pe. rewrite Pe. reflexivity. }
+  { intros e Ce. apply row_context_cases in Ce. exact Ce. }
+  { exact Sc. }
+  rewrite D in D'. injection D' as ->.
+  assert (V1 : vlast (open_elems s1) = Some e) by (rewrite E1; simpl; apply vlast_app).
+  apply ename_eqb_eq in Pe.
+  assert (Ke : known s e).
+  { eapply TInv_stack_known; [exact I|]. eapply shrunk_In; [exact Sh1|]. apply vlast_In. exact V1. }
+  pose proof K1 as [I1 S1]. assert (L1 : late s1) by (eapply keeps_late; eassumption).
+  assert (N1 : ename_of s1 e = (ns_html, nm "tr")) by (rewrite (keeps_name _ _ _ K1 Ke); exact Pe).
+  assert (Len1 : 2 <= length (open_elems s1)).
+  { destruct (TInv_stack_nonempty _ I1 L1) as (r & rest0 & Er & Nr). rewrite Er. destruct rest0; [|simpl; lia].
+    exfalso. rewrite Er in V1. simpl in V1. injection V1 as <-. rewrite Nr in N1. discriminate N1. }
+  rewrite wp_bind. eapply (wp_pop s s1); [exact K1 | exact L1 | exact Len1 |].
+  intros e' s2 K2 V E2 _. rewrite V1 in V. injection V as <-.
+  rewrite wp_bind, wp_get, wp_assert. split.
+  - unfold named, html_elem_named_b. rewrite (keeps_name _ _ _ K2 Ke), Pe. apply ename_eqb_refl.
+  - apply H; [exact K2|]. eapply shrunk_trans; [exact Sh1|].
+    exists (length (open_elems s1) - 1). repeat split; [lia | lia | exact E2].
+Qed.
+
+(* ---------- InTable ---------- *)
+Lemma process_chars_in_table_ok s t : TInv s -> late s -> saving_mode (mode s) = false -> scalar_tok t ->
+  wp (process_chars_in_table t) (step_post t) s.
+Proof.
+  intros I L NS Sc. unfold process_chars_in_table. rewrite wp_bind, wp_get, wp_bind.
+  apply wp_current_node_in; [exact I | exact L |]. intros h V.
+  match goal with |- wp (if ?b then _ else _) _ _ => destruct b end.
+  - rewrite wp_bind, wp_get, wp_bind, wp_assert. split.
+    + rewrite (pending_nil_of_nonsaving s I NS). reflexivity.
+    + rewrite wp_bind, wp_modify, wp_ret.
+      split; [split; [apply TInv_enter_table_text; assumption | discriminate] | intro C; exact C].
+  - rewrite wp_bind, wp_parse_error.
+    eapply wp_mono; [apply foster_parent_in_body_ok; [eapply TInv_core_eq; [apply core_eq_set_out | exact I] | exact L | left; exact NS | exact Sc]|].
+    intros r s' [P _]. exact P.
+Qed.
+
+Definition form_name (n : str) : bool := is_n n "form".
+
+Lemma in_table_facts :
+  forallb (atom_names safe_name false) (nth 2 heads_in_table []) = true /\
+  forallb (atom_names safe_name false) (nth 3 heads_in_table []) = true /\
+  forallb (atom_names safe_name false) (nth 5 heads_in_table []) = true /\
+  forallb (lands heads_in_head ih_plain) (nth 10 heads_in_table []) = true /\
+  forallb (atom_names not_noscript true) (nth 10 heads_in_table []) = true /\
+  forallb (atom_names safe_name false) (nth 11 heads_in_table []) = true /\
+  forallb (atom_names form_name false) (nth 12 heads_in_table []) = true /\
+  forallb atom_is_tag (nth 8 heads_in_table []) = true.
+Proof. repeat split; reflexivity. Qed.
+
+Lemma table_not_html : nm "table" <> nm "html". Proof. discriminate. Qed.
+
+(* clear the stack back to a table context, insert, switch *)
+Lemma table_insert_switch s g m t (marker : bool) :
+  TInv s -> late s -> saving_mode (mode s) = false ->
+  (ns_html, tg_name g) <> (ns_html, nm "head") -> (ns_html, tg_name g) <> (ns_html, nm "template") ->
+  early_mode m = false -> saving_mode m = false -> head_needed m = false ->
+  wp (pop_until_current table_scope ;; (if marker then push_marker else ret tt) ;;
+      _e <- insert_element_for g ;; set_mode_m m ;; ret Done) (step_post t) s.
+Proof.
+  intros I L NS N1 N2 Em Sm Hm. assert (K : keeps s s) by (apply keeps_refl; exact I).
+  rewrite wp_bind. eapply (wp_pop_until_current s); [exact K | exact L | reflexivity |]. intros s2 K2 _ _. rewrite wp_bind.
+  assert (Rest : forall s3, keeps s s3 -> wp (_e <- insert_element_for g ;; set_mode_m m ;; ret Done) (step_post t) s3).
+  { intros s3 K3. rewrite wp_bind. unfold insert_element_for.
+    eapply (wp_insert_element_std s); [exact K3 | eapply keeps_late; eassumption | exact N1 | exact N2 |].
+    intros h s4 K4 _ _ _ _.
+    apply (set_mode_done_post s); [exact K4 | exact L | exact NS | exact Em | exact Sm | rewrite Hm; discriminate]. }
+  destruct marker.
+  - eapply (wp_push_marker s); [exact K2|]. intros s3 K3 _. apply Rest. exact K3.
+  - rewrite wp_ret. apply Rest. exact K2.
+Qed.
+
+Lemma table_phantom_reprocess s name m t :
+  TInv s -> late s -> saving_mode (mode s) = false ->
+  (ns_html, name) <> (ns_html, nm "head") -> (ns_html, name) <> (ns_html, nm "template") ->
+  early_mode m = false -> saving_mode m = false -> head_needed m = false ->
+  wp (pop_until_current table_scope ;; _e <- insert_phantom name ;; ret (Reprocess m t)) (step_post t) s.
+Proof.
+  intros I L NS N1 N2 Em Sm Hm. assert (K : keeps s s) by (apply keeps_refl; exact I).
+  rewrite wp_bind. eapply (wp_pop_until_current s); [exact K | exact L | reflexivity |]. intros s2 K2 _ _.
+  rewrite wp_bind. unfold insert_phantom.
+  eapply (wp_insert_element_std s); [exact K2 | eapply keeps_late; eassumption | exact N1 | exact N2 |].
+  intros h s4 K4 _ _ _ _. rewrite wp_ret.
+  apply (reprocess_post s); [exact K4 | exact L | exact NS | exact Em | exact Sm | rewrite Hm; discriminate].
+Qed.
+
+(* pop to the table element and reset the insertion mode *)
+Lemma wp_close_table s0 s (Q : imode -> st -> Prop) :
+  keeps s0 s -> late s -> in_scope_named s table_scope (nm "table") = true ->
+  (forall m s', keeps s0 s' -> early_mode m = false -> saving_mode m = false ->
+                (head_needed m = true -> head_elem s' <> None) -> Q m s') ->
+  wp (_n <- pop_until_named (nm "table") ;; reset_insertion_mode) Q s.
+Proof.
+  intros K L Sc H. rewrite wp_bind.
+  eapply (wp_pop_until_named s0 s); [exact K | exact L | exact table_not_html | apply in_scope_named_In in Sc; exact Sc |].
+  intros n s3 K3 Sh3.
+  eapply (wp_reset_insertion_mode s0 s3); [exact K3 | eapply keeps_late; [exact K3|] |].
+  - pose proof K as [_ S]. unfold late in *. rewrite <- (st_mode _ _ S). exact L.
+  - intros m s' K' _ Em Sm Hm. apply H; [exact K' | exact Em | exact Sm |].
+    intro X. pose proof K' as [_ S']. pose proof K3 as [_ S3]. rewrite (st_head _ _ S'), <- (st_head _ _ S3). apply Hm. exact X.
+Qed.
+
+Lemma step_in_table_ok s t : TInv s -> late s -> saving_mode (mode s) = false -> scalar_tok t ->
+  wp (step_in_table t) (step_post t) s.
+Proof.
+  intros I L NS Sc. unfold step_in_table.
+  apply wp_arm_dispatch; [apply total_in_table | apply (aligned_all b_done b_done b_done) |].
+  intros k b Ek Eb Hm Hn. pose proof (TInv_arm s (mode_id InTable) k I) as I1. set (s1 := set_out _ s) in *.
+  assert (L1 : late s1) by exact L. assert (NS1 : saving_mode (mode s1) = false) by exact NS.
+  assert (K1 : keeps s1 s1) by (apply keeps_refl; exact I1).
+  destruct in_table_facts as (F2 & F3 & F5 & F10 & N10 & F11 & F12 & F8).
+  assert (Foster : forall s2, keeps s1 s2 -> wp (foster_parent_in_body t) (step_post t) s2).
+  { intros s2 K2. pose proof K2 as [I2 S2].
+    eapply wp_mono; [apply foster_parent_in_body_ok; [exact I2 | eapply keeps_late; eassumption | left; rewrite (st_mode _ _ S2); exact NS1 | exact Sc]|].
+    intros r s' [P _]. exact P. }
+  arm_cases k Eb.
+  - (* 0 *) apply process_chars_in_table_ok; assumption.
+  - (* 1 *) apply arm_append_comment; assumption.
+  - (* 2 <caption> *)
+    destruct (head_safe _ _ F2 Hm) as (g & -> & N0 & N1 & N2). cbn [tk_tag].
+    apply (table_insert_switch s1 g InCaption (KTag g) true); try assumption; reflexivity.
+  - (* 3 <colgroup> *)
+    destruct (head_safe _ _ F3 Hm) as (g & -> & N0 & N1 & N2). cbn [tk_tag].
+    pose proof (table_insert_switch s1 g InColumnGroup (KTag g) false I1 L1 NS1 N1 N2 eq_refl eq_refl eq_refl) as X.
+    rewrite wp_bind in X. rewrite wp_bind. eapply wp_mono; [exact X|]. intros u s' Y. rewrite wp_bind, wp_ret in Y. exact Y.
+  - (* 4 <col> *)
+    apply (table_phantom_reprocess s1 (nm "colgroup") InColumnGroup t); try assumption; try reflexivity; discriminate.
+  - (* 5 <tbody> <tfoot> <thead> *)
+    destruct (head_safe _ _ F5 Hm) as (g & -> & N0 & N1 & N2). cbn [tk_tag].
+    pose proof (table_insert_switch s1 g InTableBody (KTag g) false I1 L1 NS1 N1 N2 eq_refl eq_refl eq_refl) as X.
+    rewrite wp_bind in X. rewrite wp_bind. eapply wp_mono; [exact X|]. intros u s' Y. rewrite wp_bind, wp_ret in Y. exact Y.
+  - (* 6 <td> <th> <tr> *)
+    apply (table_phantom_reprocess s1 (nm "tbody") InTableBody t); try assumption; try reflexivity; discriminate.
+  - (* 7 <table> *)
+    rewrite wp_bind, wp_parse_error, wp_bind, wp_get. set (s2 := set_out _ s1).
+    assert (K2 : keeps s1 s2) by (apply keeps_set_out; exact K1).
+    destruct (in_scope_named s2 table_scope (nm "table")) eqn:Sc2.
+    + rewrite wp_assoc. rewrite wp_bind.
+      eapply (wp_close_table s1 s2); [exact K2 | exact L1 | exact Sc2 |].
+      intros m s' K' Em Sm Hd. rewrite wp_ret. apply (reprocess_post s1); assumption.
+    + rewrite wp_ret. apply step_post_done. exact (keeps_TInv _ _ K2).
+  - (* 8 </table> *)
+    rewrite wp_bind, wp_get.
+    destruct (in_scope_named s1 table_scope (nm "table")) eqn:Sc2.
+    + rewrite wp_assoc. rewrite wp_bind.
+      eapply (wp_close_table s1 s1); [exact K1 | exact L1 | exact Sc2 |].
+      intros m s' K' Em Sm Hd. apply (set_mode_done_post s1); assumption.
+    + rewrite wp_bind, wp_parse_error, wp_ret. apply step_post_done. eapply TInv_core_eq; [apply core_eq_set_out | exact I1].
+  - (* 9 *) apply arm_unexpected; exact I1.
+  - (* 10 *) apply (in_head_delegated s1 t _ I1 L1 NS1 Sc F10 N10 Hm).
+  - (* 11 <input> *)
+    destruct (head_safe _ _ F11 Hm) as (g & -> & N0 & N1 & N2). cbn [tk_tag].
+    rewrite wp_bind, wp_parse_error. set (s2 := set_out _ s1).
+    assert (K2 : keeps s1 s2) by (apply keeps_set_out; exact K1).
+    destruct (is_type_hidden g).
+    + rewrite wp_bind. unfold insert_and_pop_element_for.
+      eapply (wp_insert_element_std s1); [exact K2 | exact L1 | exact N1 | exact N2 |].
+      intros h s3 K3 _ _ _ _. rewrite wp_ret. split; [exact (keeps_TInv _ _ K3) | apply res_ok_nonchars; reflexivity].
+    + apply Foster. exact K2.
+  - (* 12 <form> *)
+    destruct (head_named_prop _ _ _ F12 Hm) as (g & -> & Nf). apply is_n_eq in Nf. cbn [tk_tag].
+    rewrite wp_bind, wp_parse_error, wp_bind, wp_get. set (s2 := set_out _ s1).
+    assert (K2 : keeps s1 s2) by (apply keeps_set_out; exact K1).
+    rewrite wp_bind.
+    match goal with |- wp (if ?b then _ else _) _ _ => destruct b end.
+    + rewrite wp_bind. unfold insert_and_pop_element_for.
+      eapply (wp_insert_element_std s1); [exact K2 | exact L1 | rewrite Nf; discriminate | rewrite Nf; discriminate |].
+      intros e s3 K3 _ _ Kn En. rewrite wp_modify, wp_ret. apply step_post_done.
+      apply (keeps_set_form_elem s1 s3); [exact K3|]. intros x X. injection X as <-. split; [exact Kn | rewrite En, Nf; reflexivity].
+    + rewrite wp_ret, wp_ret. apply step_post_done. exact (keeps_TInv _ _ K2).
+  - (* 13 Eof *)
+    eapply wp_mono; [apply step_in_body_ok; [exact I1 | exact L1 | left; exact NS1 | exact Sc]|]. intros r s' [P _]. exact P.
+  - (* 14 *) rewrite wp_bind, wp_parse_error. apply Foster. apply keeps_set_out. exact K1.
+Qed.
+
+(* ---------- InCaption ---------- *)
+Lemma caption_not_html : nm "caption" <> nm "html". Proof. discriminate. Qed.
+
+Lemma step_in_caption_ok s t : TInv s -> mode s = InCaption -> scalar_tok t -> wp (step_in_caption t) (step_post t) s.
+Proof.
+  intros I Em Sc. assert (L : late s) by (unfold late; rewrite Em; reflexivity).
+  assert (NS : saving_mode (mode s) = false) by (rewrite Em; reflexivity).
+  unfold step_in_caption. apply wp_arm_dispatch; [apply total_in_caption | apply (aligned_all b_done b_done b_done) |].
+  intros k b Ek Eb Hm Hn. pose proof (TInv_arm s (mode_id InCaption) k I) as I1. set (s1 := set_out _ s) in *.
+  assert (L1 : late s1) by exact L. assert (NS1 : saving_mode (mode s1) = false) by exact NS.
+  assert (K1 : keeps s1 s1) by (apply keeps_refl; exact I1).
+  arm_cases k Eb.
+  - rewrite wp_bind, wp_get.
+    destruct (in_scope_named s1 table_scope (nm "caption")) eqn:Sc1; [|apply arm_unexpected; exact I1].
+    rewrite wp_assoc. rewrite wp_bind.
+    eapply (wp_implied_then_close s1 s1); [exact K1 | exact L1 | apply cursory_html | reflexivity | exact caption_not_html
+                                          | apply in_scope_named_In in Sc1; exact Sc1 |].
+    intros s2 K2 _. rewrite wp_bind.
+    eapply (wp_clear_active_formatting_to_marker s1); [exact K2|]. intros s3 K3 _.
+    match goal with |- wp (if ?b then _ else _) _ _ => destruct b end.
+    + apply (set_mode_done_post s1); [exact K3 | exact L1 | exact NS1 | reflexivity | reflexivity | intro X; discriminate X].
+    + rewrite wp_ret. apply (reprocess_post s1); [exact K3 | exact L1 | exact NS1 | reflexivity | reflexivity | intro X; discriminate X].
+  - apply arm_unexpected; exact I1.
+  - eapply wp_mono; [apply step_in_body_ok; [exact I1 | exact L1 | left; exact NS1 | exact Sc]|]. intros r s' [P _]. exact P.
+Qed.
+
+(* ---------- InColumnGroup ---------- *)
+Lemma column_group_facts :
+  forallb (lands heads_in_body [3]) (nth 3 heads_in_column_group []) = true /\
+  forallb (atom_names safe_name false) (nth 4 heads_in_column_group []) = true /\
+  forallb (lands heads_in_head ih_plain) (nth 7 heads_in_column_group []) = true /\
+  forallb (atom_names not_noscript true) (nth 7 heads_in_column_group []) = true.
+Proof. repeat split; reflexivity. Qed.
+
+Lemma colgroup_ne : (ns_html, nm "colgroup") <> html_html. Proof. discriminate. Qed.
+
+Lemma step_in_column_group_ok s t : TInv s -> mode s = InColumnGroup -> scalar_tok t ->
+  wp (step_in_column_group t) (step_post t) s.
+Proof.
+  intros I Em Sc. assert (L : late s) by (unfold late; rewrite Em; reflexivity).
+  assert (NS : saving_mode (mode s) = false) by (rewrite Em; reflexivity).
+  unfold step_in_column_group. apply wp_arm_dispatch; [apply total_in_column_group | apply (aligned_all b_done b_done b_done) |].
+  intros k b Ek Eb Hm Hn. pose proof (TInv_arm s (mode_id InColumnGroup) k I) as I1. set (s1 := set_out _ s) in *.
+  assert (L1 : late s1) by exact L. assert (NS1 : saving_mode (mode s1) = false) by exact NS.
+  assert (K1 : keeps s1 s1) by (apply keeps_refl; exact I1).
+  destruct column_group_facts as (F3 & F4 & F7 & N7).
+  assert (InBody : wp (step_in_body t) (step_post t) s1).
+  { eapply wp_mono; [apply step_in_body_ok; [exact I1 | exact L1 | left; exact NS1 | exact Sc]|]. intros r s' [P _]. exact P. }
+  assert (PopColgroup : forall h (Q : handle -> st -> Prop), vlast (open_elems s1) = Some h -> html_elem_named_b s1 h (nm "colgroup") = true ->
+            (forall e s', keeps s1 s' -> Q e s') -> wp pop Q s1).
+  { intros h Q V Nh H. eapply (wp_pop_current_not_root s1 s1); [exact K1 | exact L1 | |].
+    - exists h. split; [exact V|]. apply ename_eqb_eq in Nh. rewrite Nh. exact colgroup_ne.
+    - intros e s' K' _. apply H. exact K'. }
+  arm_cases k Eb.
+  - apply arm_split; exact I1.
+  - apply arm_append_text; assumption.
+  - apply arm_append_comment; assumption.
+  - eapply wp_mono; [apply (in_body_html s1 t _ I1 L1 Sc F3 Hm)|]. intros r s' [P _]. exact P.
+  - (* <col> *)
+    destruct (head_safe _ _ F4 Hm) as (g & -> & N0 & N1 & N2). cbn [tk_tag]. rewrite wp_bind. unfold insert_and_pop_element_for.
+    eapply (wp_insert_element_std s1); [exact K1 | exact L1 | exact N1 | exact N2 |].
+    intros h s3 K3 _ _ _ _. rewrite wp_ret. split; [exact (keeps_TInv _ _ K3) | apply res_ok_nonchars; reflexivity].
+  - (* </colgroup> *)
+    rewrite wp_bind. apply wp_current_node_named; [exact I1 | exact L1 |]. intros h V.
+    destruct (html_elem_named_b s1 h (nm "colgroup")) eqn:Nh.
+    + rewrite wp_bind. apply (PopColgroup h _ V Nh). intros e s' K'.
+      apply (set_mode_done_post s1); [exact K' | exact L1 | exact NS1 | reflexivity | reflexivity | intro X; discriminate X].
+    + rewrite wp_bind, wp_parse_error, wp_ret. apply step_post_done. eapply TInv_core_eq; [apply core_eq_set_out | exact I1].
+  - apply arm_unexpected; exact I1.
+  - apply (in_head_delegated s1 t _ I1 L1 NS1 Sc F7 N7 Hm).
+  - exact InBody.
+  - rewrite wp_bind. apply wp_current_node_named; [exact I1 | exact L1 |]. intros h V.
+    destruct (html_elem_named_b s1 h (nm "colgroup")) eqn:Nh; [|apply arm_unexpected; exact I1].
+    rewrite wp_bind. apply (PopColgroup h _ V Nh). intros e s' K'. rewrite wp_ret.
+    apply (reprocess_post s1); [exact K' | exact L1 | exact NS1 | reflexivity | reflexivity | intro X; discriminate X].
+Qed.
+
+(* ---------- InTableBody ---------- *)
+Definition section_name (n : str) : bool := in_set table_body_context (ns_html, n) && negb (is_n n "html").
+Lemma section_name_props n : section_name n = true -> in_set table_body_context (ns_html, n) = true /\ (ns_html, n) <> html_html.
+Proof.
+  unfold section_name. intro H. apply andb_true_iff in H. destruct H as [A B]. split; [exact A|].
+  apply negb_true_iff in B. apply is_n_false in B. intro E. injection E. exact B.
+Qed.
+
+Lemma table_body_facts :
+  forallb (atom_names safe_name false) (nth 0 heads_in_table_body []) = true /\
+  forallb (atom_names section_name false) (nth 2 heads_in_table_body []) = true.
+Proof. split; reflexivity. Qed.
+
+Lemma section_names_cases n : in_set section_names n = true -> in_set table_body_context n = true /\ n <> html_html.
+Proof.
+  apply (in_set_cases section_names (fun n => in_set table_body_context n = true /\ n <> html_html)).
+  unfold section_names, html_names. cbn [map]. repeat (apply Forall_cons; [split; [reflexivity | discriminate]|]). apply Forall_nil.
+Qed.
+Lemma section_names_cases' n : in_set (html_names ["tbody"; "thead"; "tfoot"]) n = true -> in_set table_body_context n = true /\ n <> html_html.
+Proof.
+  apply (in_set_cases (html_names ["tbody"; "thead"; "tfoot"]) (fun n => in_set table_body_context n = true /\ n <> html_html)).
+  unfold html_names. cbn [map]. repeat (apply Forall_cons; [split; [reflexivity | discriminate]|]). apply Forall_nil.
+Qed.
+
+(* clear the stack back to a table body context, then pop the section element *)
+Lemma wp_close_section s0 s (Q : handle -> st -> Prop) :
+  keeps s0 s -> late s ->
+  (exists x, In x (open_elems s) /\ in_set table_body_context (ename_of s x) = true /\ ename_of s x <> html_html) ->
+  (forall e s', keeps s0 s' -> Q e s') ->
+  wp (pop_until_current table_body_context ;; pop) Q s.
+Proof.
+  intros K L X H. rewrite wp_bind.
+  eapply (wp_pop_until_current_above_root s0 s); [exact K | exact L | reflexivity | exact X |].
+  intros s2 K2 _ Len2.
+  eapply (wp_pop s0 s2); [exact K2 | | exact Len2 |].
+  - pose proof K as [_ S]. pose proof K2 as [_ S2]. unfold late in *. rewrite (st_mode _ _ S2), <- (st_mode _ _ S). exact L.
+  - intros e s3 K3 _ _ _. apply H. exact K3.
+Qed.
+
+Lemma step_in_table_body_ok s t : TInv s -> Hshape s -> mode s = InTableBody -> scalar_tok t ->
+  wp (step_in_table_body t) (step_post t) s.
+Proof.
+  intros I Sh Em Sc. assert (L : late s) by (unfold late; rewrite Em; reflexivity).
+  assert (NS : saving_mode (mode s) = false) by (rewrite Em; reflexivity).
+  unfold step_in_table_body. apply wp_arm_dispatch; [apply total_in_table_body | apply (aligned_all b_done b_done b_done) |].
+  intros k b Ek Eb Hm Hn. pose proof (TInv_arm s (mode_id InTableBody) k I) as I1. set (s1 := set_out _ s) in *.
+  assert (L1 : late s1) by exact L. assert (NS1 : saving_mode (mode s1) = false) by exact NS.
+  assert (Em1 : mode s1 = InTableBody) by exact Em. assert (Sh1 : Hshape s1) by (apply Hshape_set_out; exact Sh).
+  assert (K1 : keeps s1 s1) by (apply keeps_refl; exact I1).
+  destruct table_body_facts as (F0 & F2).
+  arm_cases k Eb.
+  - (* <tr> *)
+    destruct (head_safe _ _ F0 Hm) as (g & -> & N0 & N1 & N2). cbn [tk_tag]. rewrite wp_bind.
+    eapply (wp_pop_until_current s1); [exact K1 | exact L1 | reflexivity |]. intros s2 K2 _ _.
+    rewrite wp_bind. unfold insert_element_for.
+    eapply (wp_insert_element_std s1); [exact K2 | eapply keeps_late; eassumption | exact N1 | exact N2 |].
+    intros h s4 K4 _ _ _ _.
+    apply (set_mode_done_post s1); [exact K4 | exact L1 | exact NS1 | reflexivity | reflexivity | intro X; discriminate X].
+  - (* <th> <td> *)
+    rewrite wp_bind, wp_parse_error, wp_bind.
+    eapply (wp_pop_until_current s1); [apply keeps_set_out; exact K1 | exact L1 | reflexivity |]. intros s2 K2 _ _.
+    rewrite wp_bind. unfold insert_phantom.
+    eapply (wp_insert_element_std s1); [exact K2 | eapply keeps_late; eassumption | discriminate | discriminate |].
+    intros h s4 K4 _ _ _ _. rewrite wp_ret.
+    apply (reprocess_post s1); [exact K4 | exact L1 | exact NS1 | reflexivity | reflexivity | intro X; discriminate X].
+  - (* </tbody> </tfoot> </thead> *)
+    destruct (head_named_prop _ _ _ F2 Hm) as (g & -> & Ns). apply section_name_props in Ns. destruct Ns as [Ns1 Ns2].
+    rewrite wp_bind, wp_get.
+    destruct (in_scope_named s1 table_scope (tname (KTag g))) eqn:Sc1; [|apply arm_unexpected; exact I1].
+    apply in_scope_named_In in Sc1. destruct Sc1 as (x & Hin & Nx). unfold tname in Nx. cbn [tk_tag] in Nx.
+    rewrite wp_assoc, wp_bind.
+    eapply (wp_close_section s1 s1); [exact K1 | exact L1 | exists x; rewrite Nx; auto |].
+    intros e s3 K3.
+    apply (set_mode_done_post s1); [exact K3 | exact L1 | exact NS1 | reflexivity | reflexivity | intro X; discriminate X].
+  - (* table-level start tags, </table> *)
+    rewrite wp_bind, wp_get.
+    match goal with |- wp (if ?b then _ else _) _ _ => destruct b eqn:Sc1 end; [|apply arm_unexpected; exact I1].
+    assert (X : exists x, In x (open_elems s1) /\ in_set table_body_context (ename_of s1 x) = true /\ ename_of s1 x <> html_html).
+    { destruct (dev_on s1 11) eqn:D.
+      - destruct (Hshape_tbody s1 Sh1 Em1 D Sc1) as (x & Hin & Hx). exists x. split; [exact Hin|]. apply section_names_cases. exact Hx.
+      - apply in_scope_In in Sc1. destruct Sc1 as (x & Hin & Hx). exists x. split; [exact Hin|]. apply section_names_cases'. exact Hx. }
+    rewrite wp_assoc, wp_bind.
+    eapply (wp_close_section s1 s1); [exact K1 | exact L1 | exact X |].
+    intros e s3 K3. rewrite wp_ret.
+    apply (reprocess_post s1); [exact K3 | exact L1 | exact NS1 | reflexivity | reflexivity | intro Y; discriminate Y].
+  - apply arm_unexpected; exact I1.
+  - apply step_in_table_ok; assumption.
+Qed.
+
+(* ---------- InRow ---------- *)
+Lemma row_facts : forallb (atom_names safe_name false) (nth 0 heads_in_row []) = true.
+Proof. reflexivity. Qed.
+
+Lemma step_in_row_ok s t : TInv s -> mode s = InRow -> scalar_tok t -> wp (step_in_row t) (step_post t) s.
+Proof.
+  intros I Em Sc. assert (L : late s) by (unfold late; rewrite Em; reflexivity).
+  assert (NS : saving_mode (mode s) = false) by (rewrite Em; reflexivity).
+  unfold step_in_row. apply wp_arm_dispatch; [apply total_in_row | apply (aligned_all b_done b_done b_done) |].
+  intros k b Ek Eb Hm Hn. pose proof (TInv_arm s (mode_id InRow) k I) as I1. set (s1 := set_out _ s) in *.
+  assert (L1 : late s1) by exact L. assert (NS1 : saving_mode (mode s1) = false) by exact NS.
+  assert (K1 : keeps s1 s1) by (apply keeps_refl; exact I1).
+  assert (CloseRe : in_scope_named s1 table_scope (nm "tr") = true ->
+            wp (close_row ;; ret (Reprocess InTableBody t)) (step_post t) s1).
+  { intro Sc1. rewrite wp_bind. apply wp_close_row; [exact I1 | exact L1 | exact Sc1 |]. intros s2 K2 _. rewrite wp_ret.
+    apply (reprocess_post s1); [exact K2 | exact L1 | exact NS1 | reflexivity | reflexivity | intro X; discriminate X]. }
+  arm_cases k Eb.
+  - (* <th> <td> *)
+    destruct (head_safe _ _ row_facts Hm) as (g & -> & N0 & N1 & N2). cbn [tk_tag]. rewrite wp_bind.
+    eapply (wp_pop_until_current s1); [exact K1 | exact L1 | reflexivity |]. intros s2 K2 _ _.
+    rewrite wp_bind. unfold insert_element_for.
+    eapply (wp_insert_element_std s1); [exact K2 | eapply keeps_late; eassumption | exact N1 | exact N2 |].
+    intros h s4 K4 _ _ _ _. unfold set_mode_m. rewrite wp_bind, wp_modify.
+    set (s5 := set_mode InCell s4).
+    assert (I5 : TInv s5).
+    { pose proof K4 as [_ S4]. apply (keeps_set_mode s1 s4 InCell); [exact K4 | eapply keeps_late; eassumption | rewrite (st_mode _ _ S4); exact NS1
+                                                                      | reflexivity | reflexivity | intro X; discriminate X]. }
+    rewrite wp_bind. eapply (wp_push_marker s5); [apply keeps_refl; exact I5|]. intros s6 K6 _. rewrite wp_ret.
+    apply step_post_done. exact (keeps_TInv _ _ K6).
+  - (* </tr> *)
+    rewrite wp_bind, wp_get.
+    destruct (in_scope_named s1 table_scope (nm "tr")) eqn:Sc1.
+    + rewrite wp_bind. apply wp_close_row; [exact I1 | exact L1 | exact Sc1 |]. intros s2 K2 _.
+      apply (set_mode_done_post s1); [exact K2 | exact L1 | exact NS1 | reflexivity | reflexivity | intro X; discriminate X].
+    + rewrite wp_bind, wp_parse_error, wp_ret. apply step_post_done. eapply TInv_core_eq; [apply core_eq_set_out | exact I1].
+  - rewrite wp_bind, wp_get.
+    destruct (in_scope_named s1 table_scope (nm "tr")) eqn:Sc1; [apply CloseRe; reflexivity | apply arm_unexpected; exact I1].
+  - rewrite wp_bind, wp_get.
+    destruct (in_scope_named s1 table_scope (tname t)); [|apply arm_unexpected; exact I1].
+    destruct (in_scope_named s1 table_scope (nm "tr")) eqn:Sc1; [apply CloseRe; reflexivity | apply arm_done; exact I1].
+  - apply arm_unexpected; exact I1.
+  - apply step_in_table_ok; assumption.
+Qed.
+
+(* ---------- InCell ---------- *)
+Lemma cell_facts : forallb (atom_names end_block_name false) (nth 0 heads_in_cell []) = true.
+Proof. reflexivity. Qed.
+
+Lemma step_in_cell_ok s t : TInv s -> Hshape s -> mode s = InCell -> scalar_tok t -> wp (step_in_cell t) (step_post t) s.
+Proof.
+  intros I Sh Em Sc. assert (L : late s) by (unfold late; rewrite Em; reflexivity).
+  assert (NS : saving_mode (mode s) = false) by (rewrite Em; reflexivity).
+  unfold step_in_cell. apply wp_arm_dispatch; [apply total_in_cell | apply (aligned_all b_done b_done b_done) |].
+  intros k b Ek Eb Hm Hn. pose proof (TInv_arm s (mode_id InCell) k I) as I1. set (s1 := set_out _ s) in *.
+  assert (L1 : late s1) by exact L. assert (NS1 : saving_mode (mode s1) = false) by exact NS.
+  assert (Em1 : mode s1 = InCell) by exact Em. assert (Sh1 : Hshape s1) by (apply Hshape_set_out; exact Sh).
+  assert (K1 : keeps s1 s1) by (apply keeps_refl; exact I1).
+  assert (CloseRe : (exists x, In x (open_elems s1) /\ in_set td_th (ename_of s1 x) = true) ->
+            wp (close_the_cell ;; ret (Reprocess InRow t)) (step_post t) s1).
+  { intro X. rewrite wp_bind. eapply (wp_close_the_cell s1 s1); [exact K1 | exact L1 | exact X |]. intros s2 K2 _. rewrite wp_ret.
+    apply (reprocess_post s1); [exact K2 | exact L1 | exact NS1 | reflexivity | reflexivity | intro Y; discriminate Y]. }
+  arm_cases k Eb.
+  - (* </td> </th> *)
+    destruct (head_named_prop _ _ _ cell_facts Hm) as (g & -> & Nn). apply end_block_name_props in Nn. destruct Nn as [Nn1 Nn2].
+    rewrite wp_bind, wp_get.
+    destruct (in_scope_named s1 table_scope (tname (KTag g))) eqn:Sc1; [|apply arm_unexpected; exact I1].
+    apply in_scope_named_In in Sc1. unfold tname in *. cbn [tk_tag] in *.
+    rewrite wp_assoc, wp_bind.
+    eapply (wp_implied_then_close s1 s1); [exact K1 | exact L1 | apply cursory_html | exact Nn2 | exact Nn1 | exact Sc1 |].
+    intros s2 K2 _. rewrite wp_bind.
+    eapply (wp_clear_active_formatting_to_marker s1); [exact K2|]. intros s3 K3 _.
+    apply (set_mode_done_post s1); [exact K3 | exact L1 | exact NS1 | reflexivity | reflexivity | intro X; discriminate X].
+  - rewrite wp_bind, wp_get.
+    match goal with |- wp (if ?b then _ else _) _ _ => destruct b eqn:Sc1 end; [|apply arm_unexpected; exact I1].
+    apply CloseRe. apply in_scope_In in Sc1. exact Sc1.
+  - apply arm_unexpected; exact I1.
+  - rewrite wp_bind, wp_get.
+    destruct (in_scope_named s1 table_scope (tname t)); [|apply arm_unexpected; exact I1].
+    apply CloseRe. apply (Hshape_cell s1 Sh1 Em1).
+  - eapply wp_mono; [apply step_in_body_ok; [exact I1 | exact L1 | left; exact NS1 | exact Sc]|]. intros r s' [P _]. exact P.
+Qed.
+
+(* ---------- AfterBody, InFrameset, AfterFrameset, AfterAfterBody, AfterAfterFrameset ---------- *)
+Lemma in_body_delegated s t : TInv s -> late s -> saving_mode (mode s) = false -> scalar_tok t ->
+  wp (step_in_body t) (step_post t) s.
+Proof.
+  intros I L NS Sc. eapply wp_mono; [apply step_in_body_ok; [exact I | exact L | left; exact NS | exact Sc]|]. intros r s' [P _]. exact P.
+Qed.
+
+Lemma error_reprocess_in_body s t : TInv s -> late s -> saving_mode (mode s) = false ->
+  wp (parse_error ;; ret (Reprocess InBody t)) (step_post t) s.
+Proof.
+  intros I L NS. rewrite wp_bind, wp_parse_error, wp_ret.
+  apply (reprocess_post s); [apply keeps_set_out; apply keeps_refl; exact I | exact L | exact NS | reflexivity | reflexivity | intro X; discriminate X].
+Qed.
+
+Lemma step_after_body_ok s t : TInv s -> mode s = AfterBody -> scalar_tok t -> wp (step_after_body t) (step_post t) s.
+Proof.
+  intros I Em Sc. assert (L : late s) by (unfold late; rewrite Em; reflexivity).
+  assert (NS : saving_mode (mode s) = false) by (rewrite Em; reflexivity).
+  unfold step_after_body. apply wp_arm_dispatch; [apply total_after_body | apply (aligned_all b_done b_done b_done) |].
+  intros k b Ek Eb Hm Hn. pose proof (TInv_arm s (mode_id AfterBody) k I) as I1. set (s1 := set_out _ s) in *.
+  assert (L1 : late s1) by exact L. assert (NS1 : saving_mode (mode s1) = false) by exact NS.
+  assert (K1 : keeps s1 s1) by (apply keeps_refl; exact I1).
+  arm_cases k Eb.
+  - apply arm_split; exact I1.
+  - apply in_body_delegated; assumption.
+  - apply arm_comment_to_html; assumption.
+  - apply in_body_delegated; assumption.
+  - rewrite wp_bind, wp_get, wp_bind. destruct (is_fragment s1).
+    + rewrite wp_parse_error, wp_ret. apply step_post_done. eapply TInv_core_eq; [apply core_eq_set_out | exact I1].
+    + unfold set_mode_m. rewrite wp_modify, wp_ret. apply step_post_done.
+      apply (keeps_set_mode s1 s1 AfterAfterBody); [exact K1 | exact L1 | exact NS1 | reflexivity | reflexivity | intro X; discriminate X].
+  - apply arm_done; exact I1.
+  - apply error_reprocess_in_body; assumption.
+Qed.
+
+Lemma frameset_facts :
+  forallb (atom_names safe_name false) (nth 4 heads_in_frameset []) = true /\
+  forallb (atom_names safe_name false) (nth 6 heads_in_frameset []) = true /\
+  forallb (lands heads_in_head ih_plain) (nth 7 heads_in_frameset []) = true /\
+  forallb (atom_names not_noscript true) (nth 7 heads_in_frameset []) = true.
+Proof. repeat split; reflexivity. Qed.
+
+Lemma step_in_frameset_ok s t : TInv s -> mode s = InFrameset -> scalar_tok t -> wp (step_in_frameset t) (step_post t) s.
+Proof.
+  intros I Em Sc. assert (L : late s) by (unfold late; rewrite Em; reflexivity).
+  assert (NS : saving_mode (mode s) = false) by (rewrite Em; reflexivity).
+  unfold step_in_frameset. apply wp_arm_dispatch; [apply total_in_frameset | apply (aligned_all b_done b_done b_done) |].
+  intros k b Ek Eb Hm Hn. pose proof (TInv_arm s (mode_id InFrameset) k I) as I1. set (s1 := set_out _ s) in *.
+  assert (L1 : late s1) by exact L. assert (NS1 : saving_mode (mode s1) = false) by exact NS.
+  assert (K1 : keeps s1 s1) by (apply keeps_refl; exact I1).
+  destruct frameset_facts as (F4 & F6 & F7 & N7).
+  arm_cases k Eb.
+  - apply arm_split; exact I1.
+  - apply arm_append_text; assumption.
+  - apply arm_append_comment; assumption.
+  - apply in_body_delegated; assumption.
+  - destruct (head_safe _ _ F4 Hm) as (g & -> & N0 & N1 & N2). cbn [tk_tag].
+    eapply wp_mono; [apply (insert_done_ok s1 s1 (KTag g)); [exact K1 | exact L1 | exact N1 | exact N2]|].
+    intros r s' D. apply is_done_post. exact D.
+  - (* </frameset> *)
+    rewrite wp_bind, wp_get, wp_bind.
+    destruct (Nat.eqb (length (open_elems s1)) 1) eqn:E1.
+    + rewrite wp_parse_error, wp_ret. apply step_post_done. eapply TInv_core_eq; [apply core_eq_set_out | exact I1].
+    + apply Nat.eqb_neq in E1. rewrite wp_bind.
+      eapply (wp_pop s1 s1); [exact K1 | exact L1 | |].
+      { destruct (TInv_stack_nonempty _ I1 L1) as (r & rest & Er & _). rewrite Er in *. simpl in *. lia. }
+      intros e s2 K2 _ _ _. rewrite wp_bind, wp_get. pose proof K2 as [I2 S2].
+      destruct (is_fragment s2).
+      * rewrite wp_ret, wp_ret. apply step_post_done. exact I2.
+      * rewrite wp_bind. apply wp_current_node_named; [exact I2 | eapply keeps_late; eassumption |]. intros h V.
+        destruct (negb (html_elem_named_b s2 h (nm "frameset"))).
+        -- unfold set_mode_m. rewrite wp_modify, wp_ret. apply step_post_done.
+           apply (keeps_set_mode s1 s2 AfterFrameset); [exact K2 | eapply keeps_late; eassumption | rewrite (st_mode _ _ S2); exact NS1
+                                                         | reflexivity | reflexivity | intro X; discriminate X].
+        -- rewrite wp_ret, wp_ret. apply step_post_done. exact I2.
+  - (* <frame> *)
+    destruct (head_safe _ _ F6 Hm) as (g & -> & N0 & N1 & N2). cbn [tk_tag]. rewrite wp_bind. unfold insert_and_pop_element_for.
+    eapply (wp_insert_element_std s1); [exact K1 | exact L1 | exact N1 | exact N2 |].
+    intros h s3 K3 _ _ _ _. rewrite wp_ret. split; [exact (keeps_TInv _ _ K3) | apply res_ok_nonchars; reflexivity].
+  - apply (in_head_delegated s1 t _ I1 L1 NS1 Sc F7 N7 Hm).
+  - rewrite wp_bind, wp_get, wp_bind, wp_when.
+    destruct (negb (Nat.eqb (length (open_elems s1)) 1)).
+    + rewrite wp_parse_error, wp_ret. apply step_post_done. eapply TInv_core_eq; [apply core_eq_set_out | exact I1].
+    + rewrite wp_ret. apply step_post_done. exact I1.
+  - apply arm_unexpected; exact I1.
+Qed.
+
+Lemma after_frameset_facts :
+  forallb (lands heads_in_head ih_plain) (nth 5 heads_after_frameset []) = true /\
+  forallb (atom_names not_noscript true) (nth 5 heads_after_frameset []) = true.
+Proof. split; reflexivity. Qed.
+
+Lemma step_after_frameset_ok s t : TInv s -> mode s = AfterFrameset -> scalar_tok t -> wp (step_after_frameset t) (step_post t) s.
+Proof.
+  intros I Em Sc. assert (L : late s) by (unfold late; rewrite Em; reflexivity).
+  assert (NS : saving_mode (mode s) = false) by (rewrite Em; reflexivity).
+  unfold step_after_frameset. apply wp_arm_dispatch; [apply total_after_frameset | apply (aligned_all b_done b_done b_done) |].
+  intros k b Ek Eb Hm Hn. pose proof (TInv_arm s (mode_id AfterFrameset) k I) as I1. set (s1 := set_out _ s) in *.
+  assert (L1 : late s1) by exact L. assert (NS1 : saving_mode (mode s1) = false) by exact NS.
+  assert (K1 : keeps s1 s1) by (apply keeps_refl; exact I1).
+  destruct after_frameset_facts as (F5 & N5).
+  arm_cases k Eb.
+  - apply arm_split; exact I1.
+  - apply arm_append_text; assumption.
+  - apply arm_append_comment; assumption.
+  - apply in_body_delegated; assumption.
+  - apply (set_mode_done_post s1); [exact K1 | exact L1 | exact NS1 | reflexivity | reflexivity | intro X; discriminate X].
+  - apply (in_head_delegated s1 t _ I1 L1 NS1 Sc F5 N5 Hm).
+  - apply arm_done; exact I1.
+  - apply arm_unexpected; exact I1.
+Qed.
+
+Lemma step_after_after_body_ok s t : TInv s -> mode s = AfterAfterBody -> scalar_tok t ->
+  wp (step_after_after_body t) (step_post t) s.
+Proof.
+  intros I Em Sc. assert (L : late s) by (unfold late; rewrite Em; reflexivity).
+  assert (NS : saving_mode (mode s) = false) by (rewrite Em; reflexivity).
+  unfold step_after_after_body. apply wp_arm_dispatch; [apply total_after_after_body | apply (aligned_all b_done b_done b_done) |].
+  intros k b Ek Eb Hm Hn. pose proof (TInv_arm s (mode_id AfterAfterBody) k I) as I1. set (s1 := set_out _ s) in *.
+  assert (L1 : late s1) by exact L. assert (NS1 : saving_mode (mode s1) = false) by exact NS.
+  arm_cases k Eb.
+  - apply arm_split; exact I1.
+  - apply in_body_delegated; assumption.
+  - apply arm_comment_to_doc; exact I1.
+  - apply in_body_delegated; assumption.
+  - apply arm_done; exact I1.
+  - apply error_reprocess_in_body; assumption.
+Qed.
+
+Lemma after_after_frameset_facts :
+  forallb (lands heads_in_head ih_plain) (nth 5 heads_after_after_frameset []) = true /\
+  forallb (atom_names not_noscript true) (nth 5 heads_after_after_frameset []) = true.
+Proof. split; reflexivity. Qed.
+
+Lemma step_after_after_frameset_ok s t : TInv s -> mode s = AfterAfterFrameset -> scalar_tok t ->
+  wp (step_after_after_frameset t) (step_post t) s.
+Proof.
+  intros I Em Sc. assert (L : late s) by (unfold late; rewrite Em; reflexivity).
+  assert (NS : saving_mode (mode s) = false) by (rewrite Em; reflexivity).
+  unfold step_after_after_frameset. apply wp_arm_dispatch; [apply total_after_after_frameset | apply (aligned_all b_done b_done b_done) |].
+  intros k b Ek Eb Hm Hn. pose proof (TInv_arm s (mode_id AfterAfterFrameset) k I) as I1. set (s1 := set_out _ s) in *.
+  assert (L1 : late s1) by exact L. assert (NS1 : saving_mode (mode s1) = false) by exact NS.
+  destruct after_after_frameset_facts as (F5 & N5).
+  arm_cases k Eb.
+  - apply arm_split; exact I1.
+  - apply in_body_delegated; assumption.
+  - apply arm_comment_to_doc; exact I1.
+  - apply in_body_delegated; assumption.
+  - apply arm_done; exact I1.
+  - apply (in_head_delegated s1 t _ I1 L1 NS1 Sc F5 N5 Hm).
+  - apply arm_unexpected; exact I1.
+Qed.
+
+(* ---------- InHead as the current mode ---------- *)
+Lemma step_in_head_mode_ok s t : TInv s -> Hshape s -> mode s = InHead -> scalar_tok t ->
+  wp (step_in_head_gen step_in_body t) (step_post t) s.
+Proof.
+  intros I Sh Em Sc. assert (L : late s) by (unfold late; rewrite Em; reflexivity).
+  assert (NS : saving_mode (mode s) = false) by (rewrite Em; reflexivity).
+  assert (Len : 2 <= length (open_elems s)) by (apply Hshape_depth; auto).
+  assert (Hd : head_elem s <> None) by (apply TInv_head_set; [exact I | rewrite Em; reflexivity]).
+  eapply wp_mono.
+  - apply (step_in_head_top_ok step_in_body); [|exact I | exact L | exact NS | exact Sc |].
+    + intros s0 t0 I0 L0 Hm0.
+      assert (E : first_match heads_in_body t0 = 3).
+      { apply In_singleton. apply (lands_sound heads_in_body [3] (nth 3 heads_in_head []) t0); [reflexivity | exact Hm0]. }
+      unfold step_in_body, step_in_body_gen.
+      eapply (wp_arm_dispatch_at _ _ _ _ 3); [exact E | reflexivity |].
+      eapply wp_mono; [apply ib_3_ok; [eapply TInv_core_eq; [apply core_eq_set_out | exact I0] | exact L0]|].
+      intros r s' [Is ->]. split; [apply step_post_done; exact Is | reflexivity].
+    + unfold ih_pre. cbv zeta. split; [intros _; split; assumption | intros _ _; exact Hd].
+  - intros r s' [P _]. exact P.
+Qed.
+
+(* ---------- every insertion mode ---------- *)
+Theorem step_ok s t :
+  TInv s -> Hshape s -> tok_ok s t -> scalar_tok t -> wp (step (mode s) t) (step_post t) s.
+Proof.
+  intros I Sh TO Sc. destruct (mode s) eqn:Em; cbn [step].
+  - apply step_initial_ok; assumption.
+  - apply step_before_html_ok; assumption.
+  - apply step_before_head_ok; assumption.
+  - apply step_in_head_mode_ok; assumption.
+  - apply step_in_head_noscript_ok; assumption.
+  - apply step_after_head_ok; assumption.
+  - apply in_body_delegated; [exact I | unfold late; rewrite Em; reflexivity | rewrite Em; reflexivity | exact Sc].
+  - apply step_text_ok; assumption.
+  - apply step_in_table_ok; [exact I | unfold late; rewrite Em; reflexivity | rewrite Em; reflexivity | exact Sc].
+  - apply step_in_table_text_ok; assumption.
+  - apply step_in_caption_ok; assumption.
+  - apply step_in_column_group_ok; assumption.
+  - apply step_in_table_body_ok; assumption.
+  - apply step_in_row_ok; assumption.
+  - apply step_in_cell_ok; assumption.
+  - apply step_in_template_ok; [exact I | unfold late; rewrite Em; reflexivity | left; rewrite Em; reflexivity | exact Sc].
+  - apply step_after_body_ok; assumption.
+  - apply step_in_frameset_ok; assumption.
+  - apply step_after_frameset_ok; assumption.
+  - apply step_after_after_body_ok; assumption.
+  - apply step_after_after_frameset_ok; assumption.
 Qed.
